@@ -4,6 +4,7 @@
 use std::io::{BufRead, BufReader, Write};
 use std::panic::{catch_unwind, AssertUnwindSafe};
 
+mod coord;
 mod tup;
 mod util;
 mod val;
@@ -42,6 +43,7 @@ fn main() {
             "val" => val::run(&toks),
             "wal" => wal::run(&toks),
             "tup" => tup::run(&toks),
+            "coord" => coord::run(&toks),
             _ => panic!("unknown mode"),
         }));
         let s = match r {
